@@ -1581,7 +1581,8 @@ func (t *Topic) thisUserSub(sess *Session, pkt *ClientComMessage, asUid types.Ui
 				// User wants default access mode.
 				userData.modeWant = t.accessFor(asLvl)
 			} else {
-				userData.modeWant = modeWant
+				// Ownership cannot be requested, it is accepted from the current owner (see ownerChange below).
+				userData.modeWant = modeWant &^ types.ModeOwner
 			}
 		}
 
@@ -1707,6 +1708,10 @@ func (t *Topic) thisUserSub(sess *Session, pkt *ClientComMessage, asUid types.Ui
 			if !oldWant.IsJoiner() {
 				// Set permissions NO WORSE than default, but possibly better (admin or owner banned himself).
 				userData.modeWant = userData.modeGiven | t.accessFor(asLvl)
+				if t.owner != asUid {
+					// Ownership is accepted only by an explicit request (see ownerChange above).
+					userData.modeWant &^= types.ModeOwner
+				}
 			}
 		} else if userData.modeWant != modeWant {
 			// The user has provided a new modeWant and it' different from the one before
